@@ -1334,13 +1334,43 @@ def run_cluster(args):
         res["connections_lost_with_victim"] = len(lost)
         # ---- D (survivors), optional checkpoint while down
         if plan["down_s"] >= 15 and ctx.reserved:
-            # 15 s liveness rule + 3 s status tick + slack: the survivors own the victim's services now
-            segment(ctx, max(0.0, t_k + 19.5 - time.time()))
+            # the clients of the set-aside instances keep heart-beating through a survivor: while the dead owner is still taken for
+            # alive the beat is refused (the forward fails); the first accepted beat means the take-over has just happened
+            # (15 s liveness rule + 3 s status tick) - the client then goes away in an orderly manner AT ONCE, i.e. before the new
+            # owner has had any occasion to push something about the instance. Whatever is left at t_kill + 19.5 s goes then.
+            ctx.nemesis_on = True
+            ctx.run_flag.set()
             done = 0
-            for k in sorted(ctx.reserved):
-                surv = [n for n in ctx.nodes if n.alive()]
-                rec = http_op(ctx, "takeover", rnd, k, rnd.choice(surv), op="http_deregister")
-                done += 1 if rec.get("result") == "ok" else 0
+            refused, gone = set(), set()
+            surv = [n for n in ctx.nodes if n.alive()]
+            via = {k: surv[i % len(surv)] for i, k in enumerate(sorted(ctx.reserved))}
+            while len(gone) < len(ctx.reserved):
+                late = time.time() >= t_k + 19.5
+                for k in sorted(ctx.reserved):
+                    if k in gone:
+                        continue
+                    go = late
+                    if not late:
+                        rb = http_op(ctx, "takeover", rnd, k, via[k], op="http_beat")
+                        if rb.get("result") != "ok":
+                            refused.add(k)
+                        elif k in refused:
+                            go = True
+                            ctx.count("deregistrations_at_first_accepted_beat_after_takeover")
+                    if go:
+                        # every other set-aside client leaves through the node that owns its service now, the others through the
+                        # node that forwards to it (the survivors' view: the victim's ids are gone from the live list)
+                        ids = sorted(n.id for n in surv)
+                        new_owner = ids[ctx.svc_hash[k[:3]] % len(ids)]
+                        idx = sorted(ctx.reserved).index(k)
+                        target = [n for n in surv if (n.id == new_owner) == (idx % 2 == 0)] or surv
+                        rec = http_op(ctx, "takeover", rnd, k, target[0], op="http_deregister")
+                        if rec.get("result") == "ok" or late:
+                            gone.add(k)
+                        done += 1 if rec.get("result") == "ok" else 0
+                if len(gone) < len(ctx.reserved):
+                    time.sleep(0.3)
+            segment(ctx, max(0.0, t_k + 19.5 - time.time()))
             ctx.count("deregistrations_after_takeover", done)
             if done:
                 res["mechanisms"].add("deregistered-after-takeover-before-any-update-by-the-new-owner")
